@@ -1,8 +1,8 @@
 ------------------------------- MODULE Tokio -------------------------------
 (***************************************************************************)
 (* Reference models of the tokio contracts that the Shuttle replacements   *)
-(* must keep (C19): mpsc (bounded / unbounded), oneshot, Notify, Semaphore *)
-(* and Mutex.  API level: every operation takes effect atomically at one   *)
+(* must keep (C19): mpsc (bounded / unbounded), oneshot, Notify, Semaphore,*)
+(* Mutex, RwLock, watch, OnceCell and abort.  API level: every operation takes effect atomically at one   *)
 (* (or, for operations that queue, two) points between its call and its    *)
 (* return; the trace specification TraceTokio.tla places those points.     *)
 (*                                                                         *)
@@ -36,6 +36,8 @@ Init0(P, pidx) ==
    \* RwLock: a FIFO semaphore of MaxReads permits (a writer takes them all) plus the protected value
    rl |-> [x \in 1..FieldOr(P, "nrwl") |-> [avail |-> MaxReads, closed |-> FALSE, q |-> <<>>, granted |-> {}, data |-> 0]],
    rheld |-> [t \in 1..n |-> [x \in 1..FieldOr(P, "nrwl") |-> 0]],
+   \* OnceCell: the value (-1 = empty), the task running an initialiser (-1 = none), the tasks waiting for it to finish (FIFO)
+   oc |-> [x \in 1..FieldOr(P, "noc") |-> [val |-> -1, holder |-> -1, q |-> <<>>]],
    held |-> [t \in 1..n |-> [x \in 1..Len(P.sems) |-> 0]],
    pend |-> [t \in 1..n |-> NoOp],
    st |-> [t \in 1..n |-> "idle"],       \* idle | called | queued | done
@@ -56,6 +58,8 @@ GrantFront(sm) ==
   THEN GrantFront([sm EXCEPT !.q = Tail(@), !.avail = @ - Head(sm.q).n, !.granted = @ \cup {Head(sm.q).t}])
   ELSE sm
 MxGrant(m) == IF m.holder = -1 /\ m.q # <<>> THEN [m EXCEPT !.holder = Head(m.q), !.q = Tail(@)] ELSE m
+\* OnceCell: an initialiser that failed or was cancelled hands the right to initialise to the longest-waiting caller
+OcGrant(c) == IF c.holder = -1 /\ c.q # <<>> THEN [c EXCEPT !.holder = Head(c.q), !.q = Tail(@)] ELSE c
 
 (* Steps(s, t): the states reachable by one internal step of t's pending operation (the operation's effect, or the
    first half of one that queues).  Empty = the operation cannot make progress in s. *)
@@ -187,6 +191,30 @@ Steps(s, t) ==
          ELSE {Done(s, t, 0)}
     [] k = "rw_unlock" ->
          {Done([s EXCEPT !.rl[o] = GrantFront([@ EXCEPT !.avail = @ + s.rheld[t+1][o]]), !.rheld[t+1][o] = 0], t, 0)}
+    \* ---- OnceCell: set at most once; one initialiser at a time; every caller of get_or_init sees the one value
+    [] k = "oc_get" -> {Done(s, t, s.oc[o].val)}
+    [] k = "oc_initd" -> {Done(s, t, IF s.oc[o].val # -1 THEN 1 ELSE 0)}
+    \* 0 = set, -1 = AlreadyInitialized, -2 = Initializing (somebody's initialiser - or another set - is in progress);
+    \* like an initialiser, set first takes the right to initialise and then publishes
+    [] k = "oc_set" ->
+         LET c == s.oc[o] IN
+         IF q THEN {Done([s EXCEPT !.oc[o] = [val |-> v, holder |-> -1, q |-> <<>>]], t, 0)}
+         ELSE IF c.val # -1 THEN {Done(s, t, -1)}
+         ELSE IF c.holder # -1 THEN {Done(s, t, -2)}
+         ELSE {[s EXCEPT !.oc[o].holder = t, !.st[t+1] = "queued"]}
+    \* get_or_init / get_or_try_init: v = what the caller's initialiser produces (oc_try with v < 0: it fails, answer -3).
+    \* First step: see the value, or become the initialiser, or queue behind the current one; second step (the
+    \* initialiser has run, other tasks' operations may lie in between): publish the value, or give up the right.
+    [] k \in {"oc_init", "oc_try"} ->
+         LET c == s.oc[o] IN
+         IF q THEN (IF c.holder = t
+                    THEN (IF v >= 0 THEN {Done([s EXCEPT !.oc[o] = [val |-> v, holder |-> -1, q |-> <<>>]], t, v)}
+                          ELSE {Done([s EXCEPT !.oc[o] = OcGrant([c EXCEPT !.holder = -1])], t, -3)})
+                    ELSE IF c.val # -1 THEN {Done(s, t, c.val)}
+                    ELSE {})
+         ELSE IF c.val # -1 THEN {Done(s, t, c.val)}
+         ELSE IF c.holder = -1 THEN {[s EXCEPT !.oc[o].holder = t, !.st[t+1] = "queued"]}
+         ELSE {[s EXCEPT !.oc[o].q = Append(@, t), !.st[t+1] = "queued"]}
     [] k = "abort" -> {Done([s EXCEPT !.ab = @ \cup {v}], t, 0)}
     [] k = "yield" -> {Done(s, t, 0)}
     [] OTHER -> {}
@@ -218,6 +246,10 @@ Cancelled(s, t) ==
                    LET x == s.rl[o]  need == IF op.k = "rw_read" THEN 1 ELSE MaxReads IN
                    IF t \in x.granted THEN {[s EXCEPT !.rl[o] = GrantFront([x EXCEPT !.granted = @ \ {t}, !.avail = @ + need])]}
                    ELSE {[s EXCEPT !.rl[o] = GrantFront([x EXCEPT !.q = SelectSeq(@, LAMBDA w : w.t # t)])]}
+             [] op.k \in {"oc_init", "oc_try"} /\ q ->
+                   LET c == s.oc[o] IN
+                   IF c.holder = t THEN {[s EXCEPT !.oc[o] = OcGrant([c EXCEPT !.holder = -1])]}
+                   ELSE {[s EXCEPT !.oc[o].q = SelectSeq(@, LAMBDA w : w # t)]}
              [] OTHER -> {s}
       \* 2. what the task holds
       Rel(s1) == [s1 EXCEPT
@@ -245,5 +277,9 @@ PermitsNonNegative(s) == \A x \in 1..Len(s.sm) : s.sm[x].avail >= 0
 RwLockExclusive(s) ==
   \A x \in 1..Len(s.rl) : LET H == {t \in 1..s.n : s.rheld[t][x] > 0} IN
      \A t \in H : s.rheld[t][x] = MaxReads => H = {t}
-ModelInv(s) == CapacityRespected(s) /\ MutexExclusive(s) /\ PermitsNonNegative(s) /\ RwLockExclusive(s)
+\* nobody initialises a full cell, nobody waits while nobody initialises
+OnceCellShape(s) == \A x \in 1..Len(s.oc) : LET c == s.oc[x] IN
+     /\ (c.val # -1 => c.holder = -1 /\ c.q = <<>>)
+     /\ (c.holder = -1 => c.q = <<>>)
+ModelInv(s) == CapacityRespected(s) /\ MutexExclusive(s) /\ PermitsNonNegative(s) /\ RwLockExclusive(s) /\ OnceCellShape(s)
 =============================================================================
